@@ -310,6 +310,10 @@ impl TcpListener {
         if crate::fault(Fault::EintrAccept) {
             return Err(io::Error::from(io::ErrorKind::Interrupted));
         }
+        if !self.0.q.borrow().is_empty() && crate::fault(Fault::AcceptError) {
+            // e.g. ECONNABORTED / EMFILE: the pending connection stays queued
+            return Err(io::Error::from_raw_os_error(103));
+        }
         self.0
             .q
             .borrow_mut()
@@ -437,6 +441,10 @@ impl UdpSocket {
         crate::switch();
         if self.0.faulty && crate::fault(Fault::EintrUdpRecv) {
             return Err(io::Error::from(io::ErrorKind::Interrupted));
+        }
+        if self.0.faulty && crate::fault(Fault::UdpRecvError) {
+            // e.g. ENOMEM / a pending ICMP error surfaced by recvmsg: nothing is consumed
+            return Err(io::Error::from_raw_os_error(12));
         }
         let deadline = deadline_after(self.0.timeout.get());
         loop {
